@@ -152,6 +152,19 @@ def oracleChains (cs : Contours) (ls : List Path) : List Path := ls.flatMap (pat
 def oracleEmpty (cs : Contours) (ls : List Path) : Bool :=
   ls.all fun l => (pairs l).all fun e => (oracleSeg cs e.1 e.2).isEmpty
 
+/-- every crossing parameter of segment `ab` whose point lies on the boundary of `P` is covered by
+(is an end point of) one of the oracle's inside intervals: at a boundary point the line has `P` on at
+least one side.  (True for every valid polygon in general position — a proper crossing flips the
+even–odd status —; that geometric fact is not proved here, so the predicate is an explicit, decidable
+hypothesis of `C14_pointset_of_segs`, evaluated by the judge on every case.) -/
+def closureOKSeg (cs : Contours) (a b : P) : Bool :=
+  let ivs := oracleSeg cs a b
+  (sortDedup (crossParams cs a b)).all fun t =>
+    !onBoundary cs (pointAt a b t) || ivs.any fun iv => decide (iv.1 ≤ t) && decide (t ≤ iv.2)
+
+def closureOK (cs : Contours) (ls : List Path) : Bool :=
+  ls.all fun l => (pairs l).all fun e => closureOKSeg cs e.1 e.2
+
 /-! ## comparison of the implementation's pieces with the oracle (undirected chains, tolerance) -/
 
 def tol : Rat := 1 / 1000000000
